@@ -198,7 +198,7 @@ class Intervals:
                     iv = meet(iv, a) if iv is not None else a
             iv = self._refine(t, b, iv, depth)
             if depth < 6 and iv is not None and rng is not None and rng[0] == 0 and iv[1] >= (1 << 62) and b is not None \
-                    and ((t.op == "bin" and t.args[0] == "Add") or t.op == "phi"):
+                    and ((t.op == "bin" and t.args[0] == "Add") or t.op == "phi" or (t.op == "field" and t.args[0].op == "downcast")):
                 ub = self.relational_upper(t, b)
                 if ub is not None and ub < iv[1]:
                     iv = (iv[0], ub)
